@@ -36,7 +36,7 @@ fn per_variant<V: Variant>(r: &mut Report, ctx: &Ctx) {
     }
     r.section(
         &name,
-        "8 hash values x 3 forms (bytes, hex, hex+prefix) x every buffer length 0..=N+64 and N+{100,127,128,129,256,1000}, 4096, 65536+N x 7 prior contents (3 masked constants, 4 ramps covering every byte value): too small => BufferIsTooSmall and buffer untouched; otherwise Ok(N), buf[..N] == representation, buf[N..] untouched; distinct by enumeration; non-trivial = all",
+        "8 hash values x 3 forms (bytes, hex, hex+prefix) x every buffer length 0..=N+64 and N+{100,127,128,129,256,1000}, 4096, 65536+N x 7 prior contents (3 masked constants, 4 ramps covering every byte value): too small => BufferIsTooSmall; otherwise Ok(N), buf[..N] == representation, buf[N..] untouched; distinct by enumeration; non-trivial = all",
         &format!("8 x 3 x {} lengths x 7 fills", V::STRLEN + 73),
         true,
         |s| {
